@@ -190,6 +190,14 @@ class C12(Property):
             opts, names = gen.gen_options(rng, features=rng.choice([("alt", "cmd", "pos"), ("alt", "adj", "cmd", "pos")]),
                                           env_p=0.2, allow_catch=False)
             regroup(rng, opts, names)
+            if rng.random() < 0.3:
+                # help texts of several paragraphs, also as styled documents of several fragments (the short form of --help
+                # shows the first paragraph only: what is skipped must not disturb what follows)
+                from .C13 import gen_text, styled
+                for x in gen.walk(opts):
+                    if x["k"] in ("flag", "arg") and rng.random() < 0.5:
+                        t = gen_text(rng)
+                        x["n"]["help"] = styled(rng, t) if rng.random() < 0.6 else t
             if rng.random() < 0.25:
                 add_twins(rng, opts, names)
             if rng.random() < 0.5:
@@ -298,6 +306,14 @@ class C12(Property):
                     continue          # inside an adjacent block an item without help is shown in the block's usage line only
                 if t not in shown:
                     out.append(Finding("violation", c, "the visible item %r is missing from the help of this level (shown: %r)" % (t, shown)))
+                    break
+            # the text shown (monochrome rendering of that document in the form the outcome has) holds every item term of
+            # the document: names, metavariables and what follows them are not eaten by the renderer
+            shown_text = b"".join(gen.unhx(ic[4]).split())
+            for t in shown:
+                if b"".join(t.encode().split()) not in shown_text:
+                    out.append(Finding("violation", c, "the item %r of the help document is missing from the text --help prints: %r"
+                                       % (t, gen.unhx(ic[4])[:600])))
                     break
             text = doc_text(ic[3])
             for t, h in visible_helps(o["p"]):
